@@ -56,6 +56,9 @@ LEAVES = [
      [P("len(self.queue)", "qlen"), P("self.queue[0].send_after", "head_send_after"), P("now", "now")], "bool", {}),
     ("Reply", "q_ready_rearm_delay", MQ, "MulticastOutgoingQueue.async_ready", ("arg", "millis_to_seconds", 0, 1),
      [P("self.queue[0].send_after", "head_send_after"), P("now", "now")], "num", {}),
+    # async_remove_answers (repair of D5): which queued answers survive a withdrawal
+    ("Reply", "q_remove_keep", MQ, "MulticastOutgoingQueue.async_remove_answers", ("compif", 0),
+     [P("answer in remove", "in_remove", "bool")], "bool", {}),
     # ---- _listener.py
     ("Reply", "l_oversize", "_listener.py", "AsyncListener.datagram_received", ("if", "data_len", 0),
      [P("data_len", "data_len")], "bool", {}),
